@@ -3,6 +3,7 @@ import itertools
 import traceback
 
 from vlib import symeval as se
+from vlib.core import CaseTimeout
 from vlib import symmon
 
 PID = 'C08'
@@ -124,6 +125,8 @@ def run_case(idx, rng, tier, ctx):
             if v['first'] is None or len(names) < v['first'][0]:
                 v['first'] = (len(names), names, rep, detail, flags)
             changed += 1
+        except CaseTimeout:
+            raise
         except Exception as exc:  # pylint: disable=broad-except
             where = symmon.innermost_symbolic_frame(exc)
             key = f'simplify:exception:{type(exc).__name__}:{where}'
@@ -160,6 +163,8 @@ def _safe_all(S, expr):
     symmon.MON.begin(None)
     try:
         return str(S.simplify(expr))
+    except CaseTimeout:
+        raise
     except Exception as exc:  # pylint: disable=broad-except
         return f'{type(exc).__name__}'
     finally:
